@@ -12,9 +12,12 @@ import (
 	"os/exec"
 	"path/filepath"
 	"runtime"
+	"runtime/debug"
+	"runtime/pprof"
 	"sort"
 	"strconv"
 	"strings"
+	"sync"
 	"time"
 
 	"verif.local/checks"
@@ -96,21 +99,19 @@ func budgetOf(c *checks.Check, tier string) time.Duration {
 	return 15 * time.Minute
 }
 
-func runWorker(id, tier string, idx, n int, out string) int {
+func runWorker(id, tier string, lo, hi int, out string) int {
 	c := checks.Registry[id]
 	if c == nil {
 		fmt.Fprintln(os.Stderr, "unknown check", id)
 		return 2
 	}
 	all := c.Scenarios(tier)
-	var mine []*explore.Scenario
-	sd := seed()
-	for i, sc := range all {
-		if (i+sd)%n == idx {
-			mine = append(mine, sc)
-		}
+	if hi > len(all) {
+		hi = len(all)
 	}
+	mine := all[lo:hi]
 	start := time.Now()
+	debug.SetGCPercent(400)
 	// hang / memory watchdog
 	go func() {
 		last, lastT := explore.Progress.Load(), time.Now()
@@ -133,7 +134,16 @@ func runWorker(id, tier string, idx, n int, out string) int {
 			}
 		}
 	}()
-	opt := explore.Options{Deadline: start.Add(budgetOf(c, tier)), WantSamples: 2}
+	if pf := os.Getenv("VERIF_PROFILE"); pf != "" && lo == 0 {
+		f, _ := os.Create(pf)
+		pprof.StartCPUProfile(f)
+		defer pprof.StopCPUProfile()
+	}
+	dl := start.Add(budgetOf(c, tier))
+	if v, err := strconv.ParseInt(os.Getenv("VERIF_DEADLINE_UNIXMS"), 10, 64); err == nil && v > 0 {
+		dl = time.UnixMilli(v)
+	}
+	opt := explore.Options{Deadline: dl, WantSamples: 1}
 	res := explore.Run(mine, opt)
 	writeJSON(out, workerOut{Result: res, WallS: time.Since(start).Seconds()})
 	return 0
@@ -222,62 +232,84 @@ func runParent(id, tier string) int {
 	}
 	defer os.RemoveAll(tmp)
 	self, _ := os.Executable()
-	type wk struct {
-		cmd *exec.Cmd
-		out string
+	// dynamic distribution: scenarios are cut into chunks, n slots pull chunks from a queue
+	chunk := (len(scs) + n*8 - 1) / (n * 8)
+	if chunk < 1 {
+		chunk = 1
 	}
-	var wks []wk
-	for i := 0; i < n; i++ {
-		out := filepath.Join(tmp, fmt.Sprintf("w%d.json", i))
-		cmd := exec.Command(self, "worker", id, tier, strconv.Itoa(i), strconv.Itoa(n), out)
-		cmd.Stdout = os.Stderr
-		cmd.Stderr = os.Stderr
-		cmd.Env = append(os.Environ(), "GOMAXPROCS=2")
-		if err := cmd.Start(); err != nil {
-			fmt.Fprintln(os.Stderr, "INFRA:", err)
-			return 2
-		}
-		wks = append(wks, wk{cmd, out})
+	type rng struct{ lo, hi int }
+	var chunks []rng
+	for lo := 0; lo < len(scs); lo += chunk {
+		chunks = append(chunks, rng{lo, min(lo+chunk, len(scs))})
 	}
+	if sd := seed(); sd > 0 && len(chunks) > 1 {
+		k := sd % len(chunks)
+		chunks = append(chunks[k:], chunks[:k]...)
+	}
+	deadline := start.Add(budgetOf(c, tier))
+	queue := make(chan rng, len(chunks))
+	for _, r := range chunks {
+		queue <- r
+	}
+	close(queue)
 	merged := &explore.Result{}
 	var hangs []string
 	infra := false
-	for _, w := range wks {
-		err := w.cmd.Wait()
-		var wo workerOut
-		b, rerr := os.ReadFile(w.out)
-		if rerr == nil {
-			rerr = json.Unmarshal(b, &wo)
-		}
-		if rerr != nil || (err != nil && wo.Hang == "") {
-			fmt.Fprintf(os.Stderr, "INFRA: worker failed: %v / %v\n", err, rerr)
-			infra = true
-			continue
-		}
-		if wo.Hang != "" {
-			hangs = append(hangs, wo.Hang)
-			continue
-		}
-		r := wo.Result
-		merged.Executions += r.Executions
-		merged.Transitions += r.Transitions
-		merged.States += r.States
-		merged.Outcomes += r.Outcomes
-		merged.NonTrivial += r.NonTrivial
-		merged.Pruned += r.Pruned
-		merged.Scenarios += r.Scenarios
-		merged.ScenariosCut += r.ScenariosCut
-		if r.MaxDevs > merged.MaxDevs {
-			merged.MaxDevs = r.MaxDevs
-		}
-		merged.Failures = append(merged.Failures, r.Failures...)
-		if len(merged.Samples) < 4 {
-			merged.Samples = append(merged.Samples, r.Samples...)
-		}
-		if len(merged.PerScenario) < 64 {
-			merged.PerScenario = append(merged.PerScenario, r.PerScenario...)
-		}
+	var mu sync.Mutex
+	var wg sync.WaitGroup
+	for slot := 0; slot < n; slot++ {
+		wg.Add(1)
+		go func(slot int) {
+			defer wg.Done()
+			for r := range queue {
+				out := filepath.Join(tmp, fmt.Sprintf("w%d-%d.json", slot, r.lo))
+				cmd := exec.Command(self, "worker", id, tier, strconv.Itoa(r.lo), strconv.Itoa(r.hi), out)
+				cmd.Stdout = os.Stderr
+				cmd.Stderr = os.Stderr
+				cmd.Env = append(os.Environ(), "GOMAXPROCS=2", fmt.Sprintf("VERIF_DEADLINE_UNIXMS=%d", deadline.UnixMilli()))
+				err := cmd.Run()
+				var wo workerOut
+				b, rerr := os.ReadFile(out)
+				if rerr == nil {
+					rerr = json.Unmarshal(b, &wo)
+				}
+				os.Remove(out)
+				mu.Lock()
+				if rerr != nil || (err != nil && wo.Hang == "") {
+					fmt.Fprintf(os.Stderr, "INFRA: worker for scenarios %d..%d failed: %v / %v\n", r.lo, r.hi, err, rerr)
+					infra = true
+					mu.Unlock()
+					continue
+				}
+				if wo.Hang != "" {
+					hangs = append(hangs, wo.Hang)
+					mu.Unlock()
+					continue
+				}
+				w := wo.Result
+				merged.Executions += w.Executions
+				merged.Transitions += w.Transitions
+				merged.States += w.States
+				merged.Outcomes += w.Outcomes
+				merged.NonTrivial += w.NonTrivial
+				merged.Pruned += w.Pruned
+				merged.Scenarios += w.Scenarios
+				merged.ScenariosCut += w.ScenariosCut
+				if w.MaxDevs > merged.MaxDevs {
+					merged.MaxDevs = w.MaxDevs
+				}
+				merged.Failures = append(merged.Failures, w.Failures...)
+				if len(merged.Samples) < 4 {
+					merged.Samples = append(merged.Samples, w.Samples...)
+				}
+				if len(merged.PerScenario) < 48 {
+					merged.PerScenario = append(merged.PerScenario, w.PerScenario...)
+				}
+				mu.Unlock()
+			}
+		}(slot)
 	}
+	wg.Wait()
 	if infra {
 		return 2
 	}
@@ -299,7 +331,13 @@ func runParent(id, tier string) int {
 	kfs := loadKnown()
 	violations := 0
 	var knownHit []string
-	os.MkdirAll(filepath.Join(verifDir(), "replays"), 0o755)
+	replayDir := filepath.Join(verifDir(), "replays")
+	evidenceDir := filepath.Join(verifDir(), "evidence")
+	if d := os.Getenv("VERIF_SCRATCH_OUT"); d != "" {
+		// mutation runs: keep replays/evidence of a mutated tree out of /verif
+		replayDir, evidenceDir = filepath.Join(d, "replays"), filepath.Join(d, "evidence")
+	}
+	os.MkdirAll(replayDir, 0o755)
 	for _, k := range keys {
 		f := byKey[k]
 		if kf := matchKnown(kfs, id, f.Key); kf != nil {
@@ -309,7 +347,7 @@ func runParent(id, tier string) int {
 		}
 		violations++
 		sum := sha256.Sum256([]byte(f.Key + f.Scenario + fmt.Sprint(f.Choices)))
-		path := filepath.Join(verifDir(), "replays", fmt.Sprintf("%s-%x.json", id, sum[:6]))
+		path := filepath.Join(replayDir, fmt.Sprintf("%s-%x.json", id, sum[:6]))
 		writeJSON(path, replayFile{Property: id, Tier: tier, Failure: f})
 		fmt.Printf("VIOLATION property=%s replay=%s\n", id, path)
 		fmt.Printf("  key: %s\n  scenario: %s\n  deviations: %d\n  what: %s\n", f.Key, f.Scenario, f.Devs, f.Msg)
@@ -357,8 +395,8 @@ func runParent(id, tier string) int {
 			"explanation":                   "every execution is an execution of the real implementation (no separate model): traces_validated_against_impl == executions",
 		},
 	}
-	os.MkdirAll(filepath.Join(verifDir(), "evidence"), 0o755)
-	writeJSON(filepath.Join(verifDir(), "evidence", id+".json"), ev)
+	os.MkdirAll(evidenceDir, 0o755)
+	writeJSON(filepath.Join(evidenceDir, id+".json"), ev)
 	fmt.Printf("%s %s: executions=%d states=%d transitions=%d outcomes=%d nontrivial=%d scenarios=%d cut=%d exhaustive=%v violations=%d known=%d wall=%.1fs\n",
 		id, tier, merged.Executions, merged.States, merged.Transitions, merged.Outcomes, merged.NonTrivial, merged.Scenarios, merged.ScenariosCut, exhaustive, violations, len(knownHit), wall)
 	if merged.Outcomes <= 1 && merged.Executions > 10 {
